@@ -124,6 +124,37 @@ def t_ancestor_is_parent(repo, specs, r):
     return fn
 
 
+def first_child_cell(it, p, r):
+    """The first child (level r+1) of the level-r cell p, as a cell."""
+    ops = it.ops
+    origins = it.module_global(it.repo.module("a5.core.origin"), "origins")
+    if r == -1:
+        return {"origin": origins[0], "segment": 0, "S": 0, "resolution": 0}
+    if r == 0:
+        return {"origin": p["origin"], "segment": it.getattr(p["origin"], "first_quintant"), "S": 0, "resolution": 1}
+    if r == 1:
+        return {"origin": p["origin"], "segment": p["segment"], "S": 0, "resolution": 2}
+    return {"origin": p["origin"], "segment": p["segment"], "S": ops.binop("*", p["S"], 4, "lemma"), "resolution": r + 1}
+
+
+def t_has_child(repo, specs, r):
+    """Every valid cell p of level r < 29 has a first child: a valid cell of level r+1 that satisfies FIRSTSPEC and
+    whose level-r ancestor is p (hypothesis HC of lean/A10.lean, and the link from a complete set of children to the
+    sibling group first-child + j*stride of lemma/siblings-and-merge)."""
+    def fn(ctx):
+        it = mk(ctx, repo, specs)
+        p, inputs = sym_valid(it, ctx, "p", r)
+        fc = first_child_cell(it, p, r)
+        FARGS = CARGS.replace("c[", "f[")
+        env = {"f": fc, "p": p, "r": r}
+        ctx.oblige("first-child-is-a-valid-cell", it.spec_bool("VALID_CELL(f)", env), None, "lemma")
+        ctx.oblige("first-child-satisfies-FIRSTSPEC", it.spec_bool("FIRSTSPEC(%s)" % FARGS, env), None, "lemma")
+        ctx.oblige("PARENT_ID(first-child, r)==id(p)", it.spec_bool("PARENT_ID(%s, r) == ENC_CELL(p)" % FARGS, env), None, "lemma")
+        ctx.cover("has-child hypotheses")
+        return inputs
+    return fn
+
+
 # ------------------------------------------------------------------------------------------------ ordering (C09)
 COMPACT = "a5.core.compact.compact"
 
